@@ -128,6 +128,9 @@ func (e *Engine) staticModHeaps(c *Contract, fn interface {
 	if strings.HasPrefix(entry, "ghost ") {
 		return nil
 	}
+	if _, ok := isObjectEntry(entry); ok {
+		return nil // applied at the call site that knows the object (objparams.go)
+	}
 	f := e.P.FindFunc(c.Pkg, c.Key)
 	typeOfIdent := func(name string) types.Type {
 		if f != nil {
@@ -587,6 +590,9 @@ func (p *Prog) variantsOf(c *Contract) []*Contract {
 // interface method) to heap map names, using the parameter and receiver types written in the contract header.
 func (e *Engine) staticModHeapsLib(c *Contract, entry string) []string {
 	entry = strings.TrimSpace(entry)
+	if _, ok := isObjectEntry(entry); ok {
+		return nil // applied at the call site that knows the object (objparams.go)
+	}
 	typeOf := func(name string) types.Type {
 		for _, p := range c.Params {
 			if p.Name == name {
